@@ -585,6 +585,57 @@ def expected_pages(site: Dict[str, Any], real: Dict[str, Any], facts: Dict[str, 
     return exp
 
 
+_NUM = _re.compile(r"^(?:(\d{1,3})|(?:(\d{1,3}) )?(\d{1,2})/(\d{1,2})|(\d{1,2}\.\d{1,2}))$")
+
+
+def _plain_number(text: str) -> Any:
+    """int / Fraction / float for a displayed value that is exact as shown (no unit, <= 3 significant digits)."""
+    m = _NUM.match(text.replace("\u2044", "/").strip())
+    if not m:
+        return None
+    if m.group(1) is not None:
+        return int(m.group(1))
+    if m.group(3) is not None:
+        if int(m.group(4)) == 0:
+            return None
+        return int(m.group(2) or 0) + Fraction(int(m.group(3)), int(m.group(4)))
+    if len(m.group(5).replace(".", "").lstrip("0")) > 3:
+        return None
+    return float(m.group(5))
+
+
+def oracle_linear_scaling(site: Dict[str, Any], obs: Dict[str, Any], exp: Dict[str, Any], facts: Dict[str, Any]) -> Optional[str]:
+    """Independent of MarkdownRecipe.render: every plain number shown on the page for count n is
+    format_number(value shown on the page at the stated count * n / native) - in the title, the prose and EVERY
+    recipe block."""
+    from recipe_grid.number_formatting import format_number
+    M = site["M"]
+    for path, e in exp.items():
+        if e[0] != "rec" or e[2] is None:
+            continue
+        _k, text, n, rel, nm = e
+        f = facts["recipes"][text]
+        native = f["servings"]
+        if not native or native > M or n == native:
+            continue
+        base_path = "/".join([f"serves{native}"] + list(rel) + [nm.rpartition(".")[0] + ".html"])
+        if base_path not in obs["pages"] or exp.get(base_path, (None, None))[1] != text:
+            continue
+        base, shown = obs["pages"][base_path]["scaled"], obs["pages"][path]["scaled"]
+        if len(base) != len(shown):
+            continue
+        fac = Fraction(n, native)
+        for i, (b, v) in enumerate(zip(base, shown)):
+            x = _plain_number(b)
+            if x is None:
+                continue
+            want = format_number(x * fac)
+            if v.replace("\u2044", "/").strip() != want:
+                return (f"{path}: value #{i} is {v!r}; the page for the stated {native} servings shows {b!r}, so "
+                        f"at {n} servings it must be {want!r}")
+    return None
+
+
 def oracle_pages(site: Dict[str, Any], obs: Dict[str, Any], real: Dict[str, Any], facts: Dict[str, Any]) -> Optional[str]:
     """C15: exactly the promised pages (+ assets), recipe pages scaled by n / native, menus 1..M, lists by title."""
     if "error" in obs:
@@ -623,7 +674,7 @@ def oracle_pages(site: Dict[str, Any], obs: Dict[str, Any], real: Dict[str, Any]
             labels = [x[0] for x in pg[lst_name]]
             if labels != sorted(labels):
                 return f"{path}: {lst_name} list is not in title order: {labels}"
-    return None
+    return oracle_linear_scaling(site, obs, exp, facts)
 
 
 def oracle_assets(site: Dict[str, Any], obs: Dict[str, Any], real: Dict[str, Any]) -> Optional[str]:
@@ -1065,6 +1116,47 @@ def pick_alone_sibling(rng: random.Random, site: Dict[str, Any]) -> Optional[Dic
     return {"file": list(p), "scale": None, "servings": None, "embed": True}
 
 
+def pick_alone_symlink(rng: random.Random, site: Dict[str, Any]) -> Optional[Dict[str, Any]]:
+    """The recipe FILE handed to the stand-alone generator is itself a symbolic link to a file in another directory
+    (inside the tree or outside it).  The root stays the directory of the link as given: a file next to the link is
+    embedded, a file next to the link's target is outside."""
+    src = [c_ for c_ in site["base"]["ch"] if c_["name"] == "src"][0]
+    outside = [c_ for c_ in site["base"]["ch"] if c_["name"] == "outside"][0]
+    dirs = [((), src)] + [(p, n) for p, n in G.walk(src) if n["k"] == "d"]
+    lp, ldir = rng.choice(dirs)                       # where the link lives
+    to_outside = rng.random() < 0.4
+    if to_outside:
+        tdir, tparts = outside, None
+    else:
+        others = [(p, n) for p, n in dirs if p != lp]
+        if not others:
+            src["ch"].append(G.D("elsewhere", []))
+            others = [(("elsewhere",), src["ch"][-1])]
+        tparts, tdir = rng.choice(others)
+    near, far = "near the link.bin", "far-next-to-target.bin"
+    for d_, nm in ((ldir, near), (tdir, far)):
+        d_["ch"] = [ch for ch in d_["ch"] if ch["name"] != nm] + [G.F(nm, data=bytes(rng.randrange(256) for _ in range(16)))]
+    real_name = "real target.md"
+    if to_outside:
+        target = "{BASE}/outside/" + real_name
+        far_url = "/".join([".."] * (len(lp) + 1)) + "/outside/" + quote(far, safe="")
+    else:
+        target = "/".join([".."] * len(lp) + list(tparts) + [real_name])
+        far_url = "/".join([".."] * len(lp) + [quote(x, safe="") for x in tparts] + [quote(far, safe="")])
+    which = rng.choice(["near", "near", "far", "both"])
+    links = []
+    if which in ("near", "both"):
+        links.append(G.md_link(rng, rng.choice(["", "./"]) + quote(near, safe=""), rng.random() < 0.5))
+    if which in ("far", "both"):
+        links.append(G.md_link(rng, far_url, rng.random() < 0.5))
+    text = "# Linked recipe for 2\n\n" + "\n\n".join("See " + l for l in links) + "\n\n    2 eggs\n"
+    tdir["ch"] = [ch for ch in tdir["ch"] if ch["name"] != real_name] + [G.F(real_name, text=text)]
+    alias = "alias.md"
+    ldir["ch"] = [ch for ch in ldir["ch"] if ch["name"] != alias] + [G.L(alias, target)]
+    site["alone_fault"] = "input-is-symlink-" + ("outside" if to_outside else "inside") + "-" + which
+    return {"file": ["src"] + list(lp) + [alias], "scale": None, "servings": rng.choice([None, None, 3]), "embed": True}
+
+
 def pick_alone(rng: random.Random, site: Dict[str, Any]) -> Optional[Dict[str, Any]]:
     recs = [(p, n) for p, n in G.walk(site["base"]) if n["k"] == "f" and "text" in n and p[0] == "src"
             and G.is_md_name(n["name"]) and not G.is_readme_name(n["name"])]
@@ -1104,20 +1196,55 @@ def _fresh_hash(base: str, inp: Sequence[str], M: int) -> str:
         shutil.rmtree(out, ignore_errors=True)
 
 
-def apply_write(site: Dict[str, Any], parts: Sequence[str], text: str) -> None:
+def apply_write(site: Dict[str, Any], parts: Sequence[str], text: Optional[str], hexdata: Optional[str] = None) -> None:
     d = G.find(site["base"], parts[:-1])
     assert d is not None and d["k"] == "d"
+    new = {"k": "f", "name": parts[-1]}
+    if text is not None:
+        new["text"] = text
+    else:
+        new["hex"] = hexdata or ""
     for ch in d["ch"]:
         if ch["name"] == parts[-1]:
             ch.clear()
-            ch.update({"k": "f", "name": parts[-1], "text": text})
+            ch.update(new)
             return
-    d["ch"].append({"k": "f", "name": parts[-1], "text": text})
+    d["ch"].append(new)
 
 
-def make_history_case(site: Dict[str, Any], steps: List[Dict[str, Any]], seed: int, fresh: bool = True) -> Case:
-    """steps: {"op": "gen", "M": n, "order": seed|None, "rng": seed} | {"op": "write", "file": parts, "text": str}
-    | {"op": "alone", ...pick_alone fields...}.  One process, one scratch tree, the steps in order."""
+def generate_noise_site(n: int, M: int, seed: int) -> None:
+    """Compile and generate an unrelated site of [n] distinct recipes in this process (its own scratch directory):
+    more distinct documents than the compile cache holds."""
+    from pathlib import Path
+    from recipe_grid.static_site.website import generate_static_site
+    d = tempfile.mkdtemp(prefix="rgv_noise_")
+    try:
+        src = os.path.join(d, "src")
+        os.mkdir(src)
+        for i in range(n):
+            with open(os.path.join(src, "n%d.md" % i), "w") as f:
+                f.write("# Noise %d-%d for %d\n\nFiller {%d} and {%d}\n\n    %d eggs\n    %dg flour\n    mix(eggs, flour)\n"
+                        % (seed, i, 1 + i % 3, 2 + i, 5 + 3 * i, 1 + i % 7, 100 + i))
+        generate_static_site(Path(src), Path(os.path.join(d, "out")), M)
+        # every page of the filler site must show its own recipe
+        for i in range(n):
+            for k in range(1, M + 1):
+                page = open(os.path.join(d, "out", "serves%d" % k, "n%d.html" % i), encoding="utf-8").read()
+                if ("Noise %d-%d " % (seed, i)) not in page or ("Filler" not in page):
+                    raise AssertionError("page serves%d/n%d.html of the filler site does not show recipe 'Noise %d-%d'"
+                                         % (k, i, seed, i))
+    finally:
+        shutil.rmtree(d, ignore_errors=True)
+
+
+def make_history_case(site: Dict[str, Any], steps: List[Dict[str, Any]], seed: int, fresh: bool = True,
+                      oracles: Sequence[str] = ()) -> Case:
+    """steps: {"op": "gen", "M": n, "order": seed|None, "rng": seed, "reuse_out": bool}
+    | {"op": "write", "file": parts, "text": str | "hex": str, "keep_times": bool}
+    | {"op": "alone", ...pick_alone fields...}
+    | {"op": "noise", "n": recipes, "M": m, "seed": s}   an unrelated site generated in between (not part of the
+      model's history: it can only matter through process-wide caches)
+    One process, one scratch tree, the steps in order.  [oracles]: "links" / "assets" run on every generation."""
     import copy
     from pathlib import Path
     from recipe_grid.static_site.website import generate_static_site
@@ -1128,7 +1255,10 @@ def make_history_case(site: Dict[str, Any], steps: List[Dict[str, Any]], seed: i
     maxM = site["M"]
     for st in steps:
         if st["op"] == "write":
-            all_texts_site["base"]["ch"].append({"k": "f", "name": "w%d" % len(all_texts_site["base"]["ch"]), "text": st["text"]})
+            if "text" in st:
+                all_texts_site["base"]["ch"].append({"k": "f", "name": "w%d" % len(all_texts_site["base"]["ch"]), "text": st["text"]})
+        elif st["op"] == "noise":
+            pass
         elif st["op"] == "gen":
             maxM = max(maxM, st["M"])
         elif st["op"] == "alone":
@@ -1147,19 +1277,29 @@ def make_history_case(site: Dict[str, Any], steps: List[Dict[str, Any]], seed: i
         materialise(cur["base"], base, base)
         k = 0
         for st in steps:
-            if st["op"] == "write":
-                apply_write(cur, st["file"], st["text"])
+            if st["op"] == "noise":
+                try:
+                    generate_noise_site(st["n"], st["M"], st["seed"])
+                except RecursionError:
+                    raise
+                except Exception as e:      # the filler site is self-contained and valid: it must generate
+                    if viol is None:
+                        viol = (f"an unrelated, valid site of {st['n']} recipes generated in the same process raised "
+                                f"{type(e).__name__}: {str(e)[:160]}")
+            elif st["op"] == "write":
+                wdata = st["text"].encode("utf-8") if "text" in st else bytes.fromhex(st["hex"])
+                apply_write(cur, st["file"], st.get("text"), st.get("hex"))
                 wpath = os.path.join(base, *st["file"])
                 old_stat = os.stat(wpath) if (st.get("keep_times") and os.path.exists(wpath)) else None
                 with open(wpath, "wb") as f:
-                    f.write(st["text"].encode("utf-8"))
+                    f.write(wdata)
                 if old_stat is not None:
                     # an in-place edit that leaves size and timestamps as they were (rsync -t, git checkout, a fast editor)
                     assert os.stat(wpath).st_size == old_stat.st_size
                     os.utime(wpath, ns=(old_stat.st_atime_ns, old_stat.st_mtime_ns))
-                step_terms.append(f"(HWrite {cpath(['B'] + list(st['file']))} {cbytes(st['text'].encode('utf-8'))})")
+                step_terms.append(f"(HWrite {cpath(['B'] + list(st['file']))} {cbytes(wdata)})")
             elif st["op"] == "gen":
-                out = os.path.join(base, "__out%d__" % k)
+                out = os.path.join(base, "__out_shared__" if st.get("reuse_out") else "__out%d__" % k)
                 k += 1
                 listed = cur if st.get("order") is None else shuffle_site(cur, st["order"])
                 random.seed(st.get("rng", 0))
@@ -1175,7 +1315,14 @@ def make_history_case(site: Dict[str, Any], steps: List[Dict[str, Any]], seed: i
                     o = read_output(out)
                     if viol is None:
                         viol = oracle_residue(o["_raw"])
-                shutil.rmtree(out, ignore_errors=True)
+                    if viol is None and "links" in oracles:
+                        viol = oracle_links(o)
+                    if viol is None and "assets" in oracles:
+                        viol = oracle_assets(cur, o, real_facts(cur, base))
+                    if viol is not None and not viol.startswith("generation"):
+                        viol = f"generation {k}: " + viol
+                if not st.get("reuse_out"):
+                    shutil.rmtree(out, ignore_errors=True)
                 step_terms.append(f"(HGenerate {cpath(['B'] + list(cur['input']))} {c.n_(st['M'])})")
                 obs_terms.append(f"(HSite {coq_site_obs(o)})")
                 digest.append(obs_json(o))
@@ -1202,7 +1349,18 @@ def make_history_case(site: Dict[str, Any], steps: List[Dict[str, Any]], seed: i
         tags.append("with-standalone")
     if any(s_.get("keep_times") for s_ in steps):
         tags.append("same-length-edit-mtime-preserved")
-    return Case(input={"site": site, "steps": steps, "seed": seed}, coq_in=coq_in, coq_out=c.lst(obs_terms, "hobs"),
+    gens = [s_ for s_ in steps if s_["op"] == "gen"]
+    if any(b["M"] < a["M"] for a, b in zip(gens, gens[1:])):
+        tags.append("smaller-M-after-larger")
+    if any(a.get("rng") == b.get("rng") for a, b in zip(gens, gens[1:])):
+        tags.append("same-rng-seed-twice")
+    if any(s_.get("reuse_out") for s_ in steps):
+        tags.append("same-output-directory")
+    if any(s_["op"] == "noise" for s_ in steps):
+        tags.append("noise-site-between")
+    if any("hex" in s_ for s_ in steps if s_["op"] == "write"):
+        tags.append("asset-edit")
+    return Case(input={"site": site, "steps": steps, "seed": seed, "oracles": list(oracles)}, coq_in=coq_in, coq_out=c.lst(obs_terms, "hobs"),
                 impl=digest, violation=viol, nontrivial=ngen >= 2, tags=tags)
 
 
@@ -1234,6 +1392,32 @@ def same_length_edit(rng: random.Random, text: str, M: int) -> Optional[str]:
     for i, ch in enumerate(lines[0]):
         if ch.isascii() and ch.isalpha() and i > 1:
             return text[:i] + ch.swapcase() + text[i + 1:]
+    return None
+
+
+def quantity_edit(rng: random.Random, text: str) -> Optional[str]:
+    """Another document that differs only INSIDE a recipe block or a {scaled value} (any length): the Markdown around
+    it - and hence the compiled template - is unchanged."""
+    lines = text.split("\n")
+    spots = []
+    fenced = False
+    for i, ln in enumerate(lines):
+        if ln.startswith("```"):
+            fenced = not fenced
+            continue
+        m = _re.match(r"^(    )(\d+)(.*)$", ln) if not fenced else _re.match(r"^()(\d+)(.*)$", ln)
+        if m and not m.group(3).startswith("/") and not m.group(3).startswith("."):
+            spots.append((i, m))
+    if spots:
+        i, m = rng.choice(spots)
+        new = str(rng.choice([x for x in (2, 3, 4, 5, 7, 12, 25, 150) if str(x) != m.group(2)]))
+        lines[i] = m.group(1) + new + m.group(3)
+        return "\n".join(lines)
+    m2 = list(_re.finditer(r"\{(\d+)\}", text))
+    if m2:
+        m = rng.choice(m2)
+        new = str(rng.choice([x for x in (2, 3, 5, 8, 11, 40) if str(x) != m.group(1)]))
+        return text[:m.start(1)] + new + text[m.end(1):]
     return None
 
 
@@ -1274,6 +1458,30 @@ def gen_history(rng: random.Random, site: Dict[str, Any]) -> List[Dict[str, Any]
             if a is not None:
                 a.update({"op": "alone", "rng": rng.randrange(10 ** 6)})
                 steps.append(a)
+    # the same tree again with a SMALLER max_servings after a larger one: nothing of the larger build may survive
+    if rng.random() < 0.6:
+        big = site["M"] + rng.randrange(2, 5)
+        steps.append({"op": "gen", "M": big, "order": rng.randrange(10 ** 6), "rng": rng.randrange(10 ** 6)})
+        steps.append({"op": "gen", "M": site["M"], "order": rng.randrange(10 ** 6), "rng": rng.randrange(10 ** 6)})
+    # the random generator put back into the SAME state before each of two generations, with an edit inside a recipe
+    # block / scaled value of one recipe before each: both edits must show
+    if rng.random() < 0.7:
+        cands = [(p, n) for p, n in recs if not G.is_readme_name(n["name"])]
+        rng.shuffle(cands)
+        for p, n in cands:
+            t1 = quantity_edit(rng, cur_text[tuple(p)])
+            t2 = quantity_edit(rng, t1) if t1 is not None else None
+            if t1 is None or t2 is None or t1 == cur_text[tuple(p)] or t2 == t1:
+                continue
+            s0 = rng.randrange(10 ** 6)
+            if steps[-1]["op"] != "gen":
+                steps.append({"op": "gen", "M": site["M"], "order": rng.randrange(10 ** 6), "rng": rng.randrange(10 ** 6)})
+            steps.append({"op": "write", "file": list(p), "text": t1})
+            steps.append({"op": "gen", "M": site["M"], "order": rng.randrange(10 ** 6), "rng": s0})
+            steps.append({"op": "write", "file": list(p), "text": t2})
+            steps.append({"op": "gen", "M": site["M"], "order": rng.randrange(10 ** 6), "rng": s0})
+            cur_text[tuple(p)] = t2
+            break
     # in-place edits of the same length with the timestamps put back (recipes and readmes): the second generation
     # must show the new text although path, size and mtime are unchanged
     for _ in range(rng.randrange(1, 3)):
@@ -1328,6 +1536,8 @@ def _alone_job(args: Tuple[int, int, str]) -> Optional[Case]:
         a = pick_alone_big(rng, site)
     elif profile == "valid" and r < 0.5:
         a = pick_alone_sibling(rng, site)
+    elif profile == "valid" and r < 0.65:
+        a = pick_alone_symlink(rng, site)
     else:
         a = pick_alone(rng, site)
     if a is None:
@@ -1381,6 +1591,81 @@ def gen_alone_cases(seed: int, n_valid: int, n_err: int) -> List[Case]:
     return [x for x in pmap(_alone_job, jobs) if x is not None]
 
 
+def ensure_linked_asset(rng: random.Random, site: Dict[str, Any]) -> Optional[Tuple[str, ...]]:
+    """Make sure some document links to a binary file of the tree; returns the asset's parts (below the base)."""
+    src = [c_ for c_ in site["base"]["ch"] if c_["name"] == "src"][0]
+    assets = [(p, n) for p, n in G.walk(src) if n["k"] == "f" and "hex" in n and len(n["hex"]) >= 8]
+    docs = [(p, n) for p, n in G.walk(src) if n["k"] == "f" and "text" in n and G.is_md_name(n["name"])]
+    if not docs:
+        return None
+    if not assets:
+        src["ch"].append(G.F("pic.png", data=bytes(rng.randrange(256) for _ in range(24))))
+        assets = [(("pic.png",), src["ch"][-1])]
+    ap, _an = rng.choice(assets)
+    dp, dn = rng.choice(docs)
+    url = "/" + "/".join(quote(x, safe="") for x in ap)
+    dn["text"] = dn["text"].rstrip("\n") + "\n\nSee " + G.md_link(rng, url, rng.random() < 0.5) + "\n"
+    return ("src",) + tuple(ap)
+
+
+def _asset_history_job(args: Tuple[int, int]) -> Optional[Case]:
+    """generate; replace a linked asset by other bytes of the SAME length with the old timestamps; generate again INTO
+    THE SAME OUTPUT DIRECTORY: the copy must be the new bytes"""
+    seed, i = args
+    rng = random.Random((seed * 1000003 + i) * 7 + 4)
+    site = G.gen_site(rng, "valid", rng.choice(["small", "small", "medium"]))
+    if site["M"] > 4:
+        site["M"] = rng.randrange(1, 5)
+    ap = ensure_linked_asset(rng, site)
+    if ap is None:
+        return None
+    node = G.find(site["base"], ap)
+    assert node is not None
+    steps: List[Dict[str, Any]] = [{"op": "gen", "M": site["M"], "order": rng.randrange(10 ** 6), "rng": rng.randrange(10 ** 6),
+                                    "reuse_out": True}]
+    data = bytes.fromhex(node["hex"])
+    for _ in range(rng.randrange(1, 3)):
+        new = bytes((b + rng.randrange(1, 255)) % 256 for b in data)
+        steps.append({"op": "write", "file": list(ap), "hex": new.hex(), "keep_times": rng.random() < 0.8})
+        steps.append({"op": "gen", "M": site["M"], "order": rng.randrange(10 ** 6), "rng": rng.randrange(10 ** 6),
+                      "reuse_out": True})
+        data = new
+    return make_history_case(site, steps, seed * 100000 + i, fresh=False, oracles=("assets",))
+
+
+def gen_asset_history_cases(seed: int, n: int) -> List[Case]:
+    return [x for x in pmap(_asset_history_job, [(seed, i) for i in range(n)]) if x is not None]
+
+
+def _noise_history_job(args: Tuple[int, int]) -> Case:
+    """generate; generate an unrelated site with more distinct recipes than any cache holds; generate again"""
+    seed, i = args
+    rng = random.Random((seed * 1000003 + i) * 7 + 8)
+    site = G.gen_site(rng, "valid", "medium")
+    if site["M"] > 4:
+        site["M"] = rng.randrange(2, 5)
+    g = {"op": "gen", "M": site["M"], "order": None, "rng": rng.randrange(10 ** 6)}
+    steps = [dict(g), {"op": "noise", "n": 170, "M": 3, "seed": seed * 1000 + i}, dict(g, rng=rng.randrange(10 ** 6))]
+    return make_history_case(site, steps, seed * 100000 + i)
+
+
+def gen_noise_history_cases(seed: int, n: int) -> List[Case]:
+    return pmap(_noise_history_job, [(seed, i) for i in range(n)])
+
+
+def _links_history_job(args: Tuple[int, int]) -> Case:
+    seed, i = args
+    rng = random.Random((seed * 1000003 + i) * 7 + 9)
+    site = G.gen_site(rng, "valid", rng.choice(["small", "medium"]))
+    if site["M"] > 5:
+        site["M"] = rng.randrange(2, 6)
+    return make_history_case(site, gen_history(rng, site), seed * 100000 + i, fresh=False, oracles=("links",))
+
+
+def gen_links_history_cases(seed: int, n: int) -> List[Case]:
+    return pmap(_links_history_job, [(seed, i) for i in range(n)])
+
+
 def _edit_history_job(args: Tuple[int, int]) -> Case:
     """generate, edit recipes in place (same length, timestamps restored: serving counts, quantities), generate again"""
     seed, i = args
@@ -1398,7 +1683,7 @@ def gen_edit_history_cases(seed: int, n: int) -> List[Case]:
 
 def replay_any(inp: Dict[str, Any], which: str) -> Case:
     if "steps" in inp:
-        return make_history_case(inp["site"], inp["steps"], inp.get("seed", 0))
+        return make_history_case(inp["site"], inp["steps"], inp.get("seed", 0), oracles=inp.get("oracles", ()))
     if "alone" in inp:
         return make_alone_case(inp["site"], inp["alone"], inp.get("seed", 0))
     return make_site_case(inp["site"], inp.get("seed", 0), which)
